@@ -100,10 +100,102 @@ def is_hash_iteration(c):
     return any(h in recv for h in HASH_TYPES)
 
 
+def _sccs(fn):
+    import sys
+    sys.setrecursionlimit(100000)
+    idx, low, st, on, out, cnt = {}, {}, [], set(), [], [0]
+
+    def sc(v):
+        idx[v] = low[v] = cnt[0]
+        cnt[0] += 1
+        st.append(v)
+        on.add(v)
+        for w in fn.succ[v]:
+            if w not in idx:
+                sc(w)
+                low[v] = min(low[v], low[w])
+            elif w in on:
+                low[v] = min(low[v], idx[w])
+        if low[v] == idx[v]:
+            comp = []
+            while True:
+                w = st.pop()
+                on.discard(w)
+                comp.append(w)
+                if w == v:
+                    break
+            if len(comp) > 1 or v in fn.succ[v]:
+                out.append(set(comp))
+    for v in range(len(fn.blocks)):
+        if v not in idx and not fn.blocks[v]["cleanup"]:
+            sc(v)
+    return out
+
+
+def _locals_used(fn, bb):
+    from rules.facts import op_place, rv_operands
+    ls = set()
+    b = fn.blocks[bb]
+    for s in b["stmts"]:
+        if "lhs" not in s:
+            continue
+        for o in rv_operands(s["rv"]):
+            p = op_place(o)
+            if p:
+                ls.add(p["l"])
+        if s["rv"]["k"] in ("ref", "discr", "rawptr"):
+            ls.add(s["rv"]["place"]["l"])
+    t = b["term"]
+    if t["k"] == "call":
+        for a in t["args"]:
+            p = op_place(a)
+            if p:
+                ls.add(p["l"])
+    if t["k"] == "switch":
+        p = op_place(t["discr"])
+        if p:
+            ls.add(p["l"])
+    return ls
+
+
+def loop_carried_values(fn):
+    """User variables assigned a data-dependent (non-constant, non-accumulating) value inside a loop and read after it:
+    `last = Some(x)` — which element wins depends on the visiting order.  Collection updates (push / insert), constant
+    flags (`found = true`) and commutative accumulations (`n += ..`) are not reported."""
+    p = Prov(fn)
+    out = []
+    reach = fn.reachable()
+    for loop in _sccs(fn):
+        used_out = set()
+        for b in reach:
+            if b not in loop:
+                used_out |= _locals_used(fn, b)
+        for bb in loop:
+            for s in fn.blocks[bb]["stmts"]:
+                if "lhs" not in s:
+                    continue
+                L = s["lhs"]["l"]
+                if L not in used_out or L not in fn.names:
+                    continue
+                e = p._rv(s["rv"], 0, frozenset())
+                if e[0] == "const" or not [x for x in walk(e) if x[0] in ("param", "upvar", "call", "field", "unknown")]:
+                    continue
+                if e[0] == "bin" and e[1] in ("Add", "AddWithOverflow", "BitOr", "BitAnd", "Mul", "MulWithOverflow", "BitXor"):
+                    continue
+                out.append((fn.names[L], show(e)[:100]))
+    return out
+
+
+LOOP_CARRIED_AUDITED = {
+    ("DataVerifier::merge", "left_val"): "operands of a debug_assert_eq! inside the loop (compiled to a constant-false branch without debug assertions)",
+    ("DataVerifier::merge", "right_val"): "operands of a debug_assert_eq! inside the loop (compiled to a constant-false branch without debug assertions)",
+}
+
+
 def check(ctx):
     F = ctx.facts("prod")
     from props import controls
-    controls.require(ctx, "nd-source", "hash-iter")
+    controls.require(ctx, "nd-source", "hash-iter", "loop-carried")
     ctx.clause("R-NOSRC no reachable call to a clock / random / env / thread / process-id source (positive control on the matcher)")
     ctx.clause("R-REACH hash-order census: every HashMap/HashSet/MultiMap iteration in reachable hand-written code is a reasoned row")
     ctx.clause("R-TYPE JValue::Object is a BTreeMap")
@@ -162,6 +254,24 @@ def check(ctx):
                 continue
             seen_rows.add(rk[0])
     ctx.floor("R-REACH", "hash-order iteration sites", n_sites, 20)
+    # the classification of a row speaks about its sink; one sink shape is decidable mechanically and is re-checked on every
+    # run for every function that iterates in hash order: no loop may carry a "which element was seen last/first" value out
+    ctx.clause("R-FLOW no loop in a hash-iterating function carries an order-dependent scalar (last/first element wins) out of the loop")
+    n_loops_fns = 0
+    for fid in sorted(reach):
+        fn = F.fns[fid]
+        if census.is_generated_fn(fn) or not any(is_hash_iteration(c) or c.cid in wrappers for c in fn.calls):
+            continue
+        n_loops_fns += 1
+        owner = fn.path.split("::{closure")[0]
+        for name, expr in loop_carried_values(fn):
+            aud = [r for (o, n_), r in LOOP_CARRIED_AUDITED.items() if owner.endswith(o) and n_ == name]
+            if aud:
+                ctx.ok("R-FLOW", "loop-carried:%s|%s" % (owner, name), aud[0])
+            else:
+                ctx.violation("R-FLOW", "loop-carried:%s|%s" % (owner, name), "%s iterates in hash order and its loop assigns `%s := %s`, a value read after the loop: which element wins depends on the per-process hash seed"
+                              % (fn.path, name, expr), {"fn": fn.path})
+    ctx.ok("R-FLOW", "loop-carried:scan", "%d hash-iterating functions scanned for order-dependent loop-carried values" % n_loops_fns)
     allrows = dict(ROWS)
     allrows.update(WRAPPER_CALL_ROWS)
     for k in sorted(seen_rows):
